@@ -327,7 +327,25 @@ def run_penalty_comb(rng, obs):
         obs.check((pn(x) > 0) == interior, 'pcomb:not_ penalises exactly the interior of the accepted region',
                   member=specs[0], x=x, observed=pn(x), interior=interior)
         zs.add(interior)
-    obs.desc = {'members': specs, 'dim': dim}
+    # not_ of a raw condition with the penalty type named explicitly (ptype=): the kind of THAT type says how the condition is read -
+    # as an inequality (accepted: c(x) <= 0, interior c(x) < 0) or as an equality (accepted: c(x) == 0)
+    tname = rng.choice(['quadratic_inequality', 'linear_inequality', 'uniform_inequality', 'quadratic_equality', 'linear_equality', 'uniform_equality'])
+    i2, b2 = rng.randrange(dim), rng.choice([0.0, 1.0, -1.0])
+    raw_cond = (lambda x, i=i2, b=b2: x[i] - b)
+    src = rng.choice(['raw', 'raw', 'penalty_of_other_kind'])
+    if src == 'raw': member = raw_cond
+    else:     # a member penalty of the OTHER kind: the explicit type still decides
+        other = 'linear_equality' if tname.endswith('_inequality') else 'linear_inequality'
+        member = getattr(mp, other)(raw_cond, k=1)(lambda x: 0.0)
+    pn2 = not_(member, ptype=getattr(mp, tname), k=rng.choice([1, 10]))
+    for _ in range(5):
+        x = [rng.choice([-2.0, -1.0, 0.0, 1.0, 2.0]) for _ in range(dim)]
+        cv = x[i2] - b2
+        interior = cv < 0 if tname.endswith('_inequality') else cv == 0
+        obs.check((pn2(x) > 0) == interior, 'pcomb:not_ penalises exactly the interior of the accepted region', member=['condition x[%d] - %s' % (i2, b2), src], ptype=tname, x=x, observed=pn2(x),
+                  interior=interior, explicit_ptype=True)
+        zs.add(interior)
+    obs.desc = {'members': specs, 'dim': dim, 'explicit_ptype': [tname, src]}
     obs.nontrivial = (True in zs) and (False in zs)
 
 
